@@ -2,6 +2,7 @@ package sim
 
 import (
 	"bytes"
+	"crypto"
 	"crypto/ecdsa"
 	"crypto/ed25519"
 	"crypto/elliptic"
@@ -69,7 +70,9 @@ func sameECPub(a, b *ecdsa.PublicKey) bool {
 func scenarioC14(r *Run) {
 	t := r.T
 	ent := NewEntropy(uint64(t.U32("entropy.seed")))
-	switch t.Pick([]int{6, 1, 2, 3}, "c14.path") {
+	switch t.Pick([]int{6, 1, 2, 3, 2}, "c14.path") {
+	case 4:
+		c14Records(r, t, ent)
 	case 0: // EC key from Go
 		kp := freshECKey(t)
 		if t.Bool(1, 4, "c14.pool") {
@@ -97,6 +100,11 @@ func scenarioC14(r *Run) {
 
 func decorate(t *tape.Tape, k *cose.Key) string {
 	d := ""
+	if t.Bool(1, 3, "c14.noalg") {
+		// alg is optional in a COSE_Key
+		k.Algorithm = cose.AlgorithmReserved
+		d += "+noalg"
+	}
 	if t.Bool(1, 3, "c14.kid") {
 		k.ID = t.Bytes(genLen(t, 24), "c14.kid.v")
 		if k.ID == nil {
@@ -484,6 +492,10 @@ func scenarioC15(r *Run) {
 		if err == nil {
 			r.Fired("dest.reuse.ok")
 			r.Op("KEY_LOAD", "same variable, earlier: %s", prev.Desc)
+			if t.Bool(2, 3, "c15.slot.used") {
+				// ... and that key was used
+				r.Lib(func() { k.Signer(); k.Verifier(); k.PublicKey(); k.PrivateKey() })
+			}
 		}
 	}
 	r.Lib(func() { err = k.UnmarshalCBOR(stored) })
@@ -582,6 +594,109 @@ func scenarioC15(r *Run) {
 			r.Fail("verifier-for-other-algorithm", "Verifier().Algorithm() = %d, the key fixes %d\n%s", int64(v.Algorithm()), view.FixedAlg(), hexShort(stored))
 		}
 	}
+	if r.Viol != nil || ks.Pair == nil || tagged {
+		// (tagged: the library reads through tag 55799, the reference does not -
+		// that difference is the known finding and is reported above)
+		return
+	}
+	// "for the key": what the stored bytes say, not what the variable held
+	// before.  The verifier must judge a signature of the generated key pair
+	// exactly as the reference does with the public point READ FROM THE BYTES,
+	// and the signer must sign for that point when the bytes carry a d that
+	// belongs to it.
+	pub := viewPublic(view)
+	content := []byte("c15 key use")
+	ent := NewEntropy(uint64(t.U32("c15.ent")))
+	if verr2 == nil && v != nil && pub != nil {
+		sig := foreignSign(ks.Pair.withAlg(view.FixedAlg()), content, ent)
+		want := refcose.ValidSignature(view.FixedAlg(), pub, content, sig)
+		var e error
+		r.Lib(func() { e = v.Verify(content, sig) })
+		r.Check()
+		if (e == nil) != want {
+			r.Fail("verifier-not-for-the-stored-key", "Verifier() of the loaded key judges a signature of %s as %v, the public point in the stored bytes makes it %v\n%s", ks.Pair.Name, e == nil, want, hexShort(stored))
+			return
+		}
+		r.Outcome(fmt.Sprintf("verifier-behaves/%v", want))
+	}
+	if serr == nil && s != nil {
+		var sig []byte
+		var e error
+		r.Lib(func() { sig, e = s.Sign(ent, content) })
+		r.Check()
+		if e != nil {
+			return
+		}
+		// the library derives the public half from d when it signs; compare
+		// with the key d defines
+		// (only where the stored x/y, if any, is the point d defines: the
+		// property does not speak about keys whose halves disagree)
+		dpub := viewPublicFromD(view)
+		if dpub != nil && !samePublic(dpub, pub) {
+			return
+		}
+		if dpub != nil && !refcose.ValidSignature(view.FixedAlg(), dpub, content, sig) {
+			r.Fail("signer-not-for-the-stored-key", "Signer() of the loaded key produced a signature that the key defined by the stored d does not verify\n%s", hexShort(stored))
+			return
+		}
+		r.Outcome("signer-behaves")
+	}
+}
+
+// viewPublic builds the Go public key from the public point in the bytes.
+func viewPublic(v *refcose.KeyView) crypto.PublicKey {
+	if v.Crv == nil || v.Crv.Major > refcbor.MNint {
+		return nil
+	}
+	crv, ok := v.Crv.Int64()
+	if !ok {
+		return nil
+	}
+	switch {
+	case v.Kty == refcose.KtyOKP && crv == refcose.CrvEd25519 && nonEmpty(v.X) && len(v.X.Data) == ed25519.PublicKeySize:
+		return ed25519.PublicKey(append([]byte{}, v.X.Data...))
+	case v.Kty == refcose.KtyEC2 && nonEmpty(v.X) && nonEmpty(v.Y):
+		c := curveOfCrv(crv)
+		if c == nil {
+			return nil
+		}
+		return &ecdsa.PublicKey{Curve: c, X: new(big.Int).SetBytes(v.X.Data), Y: new(big.Int).SetBytes(v.Y.Data)}
+	}
+	return nil
+}
+
+func viewPublicFromD(v *refcose.KeyView) crypto.PublicKey {
+	if v.Crv == nil || !nonEmpty(v.D) {
+		return nil
+	}
+	crv, ok := v.Crv.Int64()
+	if !ok {
+		return nil
+	}
+	switch {
+	case v.Kty == refcose.KtyOKP && crv == refcose.CrvEd25519 && len(v.D.Data) == ed25519.SeedSize:
+		return ed25519.NewKeyFromSeed(v.D.Data).Public()
+	case v.Kty == refcose.KtyEC2:
+		c := curveOfCrv(crv)
+		d := new(big.Int).SetBytes(v.D.Data)
+		if c == nil || d.Sign() == 0 || d.Cmp(c.Params().N) >= 0 {
+			return nil
+		}
+		return &ecKeyFromScalar(c, d).PublicKey
+	}
+	return nil
+}
+
+func curveOfCrv(crv int64) elliptic.Curve {
+	switch crv {
+	case refcose.CrvP256:
+		return elliptic.P256()
+	case refcose.CrvP384:
+		return elliptic.P384()
+	case refcose.CrvP521:
+		return elliptic.P521()
+	}
+	return nil
 }
 
 func nonEmpty(it *refcbor.Item) bool {
@@ -618,4 +733,142 @@ func hasTimeTaggedMapKey(b []byte) bool {
 		}
 	})
 	return found
+}
+
+// c14Records: a key store with fixed-size records: the key material of several
+// keys sits in ONE caller-owned buffer and each COSE_Key is built from
+// sub-slices of it (NewKeyOKP / NewKeyEC2).  Converting one key must neither
+// change that buffer nor affect the next key.
+func c14Records(r *Run, t *tape.Tape, ent *Entropy) {
+	n := 2 + t.Choose(3, "c14.rec.n")
+	if t.Bool(1, 2, "c14.rec.okp") {
+		buf := make([]byte, 0, 32*n)
+		var privs []ed25519.PrivateKey
+		for i := 0; i < n; i++ {
+			seed := t.Bytes(32, "c14.rec.seed")
+			privs = append(privs, ed25519.NewKeyFromSeed(seed))
+			buf = append(buf, seed...)
+		}
+		orig := append([]byte{}, buf...)
+		r.Op("KEY_PUT", "%d Ed25519 seeds in one record buffer", n)
+		r.Outcome(fmt.Sprintf("records/okp/n=%d", n))
+		keys := make([]*cose.Key, n)
+		for i := 0; i < n; i++ {
+			var err error
+			pub := privs[i].Public().(ed25519.PublicKey)
+			x := append([]byte{}, pub...)
+			if t.Bool(1, 3, "c14.rec.nox") {
+				x = nil
+			}
+			r.Lib(func() { keys[i], err = cose.NewKeyOKP(cose.AlgorithmEdDSA, x, buf[32*i:32*i+32]) })
+			if err != nil {
+				r.Check()
+				r.Fail("newkeyokp-fails", "NewKeyOKP refused a valid seed: %v", err)
+				return
+			}
+		}
+		for i := 0; i < n; i++ {
+			var got any
+			var err error
+			r.Lib(func() { got, err = keys[i].PrivateKey() })
+			r.Check()
+			if gp, ok := got.(ed25519.PrivateKey); err != nil || !ok || !bytes.Equal(gp, privs[i]) {
+				r.Fail("record-private-key-differs/OKP", "PrivateKey() of record %d of %d differs from the key its seed defines (%v)", i, n, err)
+				return
+			}
+			if !bytes.Equal(buf, orig) {
+				r.Fail("conversion-writes-into-caller-buffer/OKP", "after PrivateKey() of record %d the caller's record buffer changed\nbefore: %x\n after: %x", i, orig, buf)
+				return
+			}
+			var s cose.Signer
+			r.Lib(func() { s, err = keys[i].Signer() })
+			if err != nil {
+				r.Fail("signer-from-stored-key-fails/Ed25519", "%v", err)
+				return
+			}
+			var sig []byte
+			r.Lib(func() { sig, err = s.Sign(ent, []byte("record")) })
+			if err != nil || !ed25519.Verify(privs[i].Public().(ed25519.PublicKey), []byte("record"), sig) {
+				r.Fail("record-signer-signs-with-other-key/OKP", "the signer of record %d does not sign with that record's key (%v)", i, err)
+				return
+			}
+		}
+		if !bytes.Equal(buf, orig) {
+			r.Check()
+			r.Fail("conversion-writes-into-caller-buffer/OKP", "the caller's record buffer changed\nbefore: %x\n after: %x", orig, buf)
+		}
+		return
+	}
+	// EC2 records: x || y || d per key, minimal-length slices into one buffer
+	var buf []byte
+	type rec struct {
+		priv       *ecdsa.PrivateKey
+		xo, yo, do [2]int
+	}
+	var recs []rec
+	for i := 0; i < n; i++ {
+		k := freshECKey(t).Priv.(*ecdsa.PrivateKey)
+		var rc rec
+		rc.priv = k
+		for j, b := range [][]byte{k.X.Bytes(), k.Y.Bytes(), k.D.Bytes()} {
+			off := [2]int{len(buf), len(buf) + len(b)}
+			buf = append(buf, b...)
+			switch j {
+			case 0:
+				rc.xo = off
+			case 1:
+				rc.yo = off
+			default:
+				rc.do = off
+			}
+		}
+		recs = append(recs, rc)
+	}
+	orig := append([]byte{}, buf...)
+	r.Op("KEY_PUT", "%d EC2 records in one buffer", n)
+	r.Outcome(fmt.Sprintf("records/ec2/n=%d", n))
+	for i, rc := range recs {
+		var k *cose.Key
+		var err error
+		alg := cose.Algorithm(algForCurve(rc.priv.Curve))
+		r.Lib(func() {
+			k, err = cose.NewKeyEC2(alg, buf[rc.xo[0]:rc.xo[1]], buf[rc.yo[0]:rc.yo[1]], buf[rc.do[0]:rc.do[1]])
+		})
+		if err != nil {
+			r.Check()
+			r.Fail("newkeyec2-fails", "NewKeyEC2 refused valid material: %v", err)
+			return
+		}
+		if t.Bool(1, 3, "c14.noalg") {
+			k.Algorithm = cose.AlgorithmReserved
+		}
+		b, back, ok := r.c14Store(k, rc.priv.Curve.Params().Name, nil)
+		if !ok {
+			return
+		}
+		c14CheckCoords(r, b, (rc.priv.Curve.Params().BitSize+7)/8, rc.priv.Curve.Params().Name+"/record")
+		var got any
+		r.Lib(func() { got, err = back.PrivateKey() })
+		r.Check()
+		if gp, ok := got.(*ecdsa.PrivateKey); err != nil || !ok || gp.D.Cmp(rc.priv.D) != 0 || !sameECPub(&gp.PublicKey, &rc.priv.PublicKey) {
+			r.Fail("record-private-key-differs/EC2", "PrivateKey() of record %d differs (%v)", i, err)
+			return
+		}
+		if !bytes.Equal(buf, orig) {
+			r.Fail("conversion-writes-into-caller-buffer/EC2", "after handling record %d the caller's record buffer changed", i)
+			return
+		}
+	}
+}
+
+func samePublic(a, b crypto.PublicKey) bool {
+	switch x := a.(type) {
+	case ed25519.PublicKey:
+		y, ok := b.(ed25519.PublicKey)
+		return b == nil || (ok && bytes.Equal(x, y))
+	case *ecdsa.PublicKey:
+		y, ok := b.(*ecdsa.PublicKey)
+		return ok && sameECPub(x, y)
+	}
+	return false
 }
